@@ -338,6 +338,14 @@ def tree_kind(tree):
     return f"{tree[0]}[{','.join(inner)}]"
 
 
+def point(points, pt, ins, sizes):
+    """pt = 0 | 1: one of the two points of the table; {"move": name}: point 0 with only that input moved to
+    its value at point 1 (the disciplines that do not depend on it see unchanged inputs: their caches hit)."""
+    if isinstance(pt, dict):
+        return {n: np.array(points[1 if n == pt["move"] else 0][n][: sizes[n]]) for n in ins}
+    return {n: np.array(points[pt][n][: sizes[n]]) for n in ins}
+
+
 def execute_case(case):
     """Run one case on the real code.  Returns (list of (invariant, detail-dict, message), observations)."""
     g = _gemseo()
@@ -371,7 +379,7 @@ def _execute_case(case, g):
         return [("grammar", {}, f"process inputs/outputs {got_in}/{got_out}, harness expects {ins}/{outs}")], obs
     req_in, req_out = [], []
     for step in case["history"]:
-        x = {n: np.array(points[step.get("pt", 0)][n][: sizes[n]]) for n in ins}
+        x = point(points, step.get("pt", 0), ins, sizes)
         _, _, ref_val, ref_jac, bound = reference(tree, specs, bodies, sizes, x)
         try:
             if step.get("all"):
@@ -568,6 +576,12 @@ def histories(ins, outs, level, all_subsets=False, all_pairs=True):
         return hs
     single = [([u], [o]) for u in ins for o in outs]
     full = (list(ins), list(outs))
+    if len(ins) > 1:
+        for u in ins:  # re-execution in which only the disciplines depending on u see new inputs
+            hs.append([{"all": True}, {"all": True, "pt": {"move": u}}])
+            hs.append([{"in": single[0][0], "out": single[0][1]}, {"all": True, "pt": {"move": u}}])
+            if level > 1:
+                hs.append([{"all": True}, {"in": single[-1][0], "out": single[-1][1], "pt": {"move": u}}])
     for i, o in single:
         # subset -> everything and everything -> subset, at the same point (cache paths) or a moved point (staleness)
         hs.append([{"in": i, "out": o}, {"all": True}])
@@ -629,7 +643,7 @@ def gen_cases(ctx, table):
                     level = 2 if thorough else 1
                 else:
                     level = 1 if thorough and kind in ("par", "add", "chain[par]") else 0
-                for h in histories(ins, outs, level, all_subsets=thorough and level == 2, all_pairs=kind in PRUNING_KINDS):
+                for h in histories(ins, outs, level, all_subsets=thorough and level == 2, all_pairs=kind in CHAINLIKE or (thorough and kind in PRUNING_KINDS)):
                     if h != [{"all": True}]:  # done in P1
                         yield mk("P2", specs, tree, h)
         if thorough:  # up to 4 names per side: single requests
@@ -648,7 +662,8 @@ def gen_cases(ctx, table):
             yield mk("P3", specs, ["chain", [0, 1, 2]], [{"all": True}])
             if canonical and (not thorough or all(len(o) == 1 for _, o in specs)):
                 for tree in trees_for(specs, thorough)[1:]:
-                    yield mk("P3", specs, tree, [{"all": True}])
+                    if thorough or tree_kind(tree) not in ("chain[D,par]", "par[chain,D]"):
+                        yield mk("P3", specs, tree, [{"all": True}])
     # P3r three single-output disciplines (representatives), requests on the chain kinds
     if want("P3r"):
         for specs in compositions(3, 2, 1):
@@ -664,6 +679,9 @@ def gen_cases(ctx, table):
                 reqs = requests(ins, outs, all_subsets=False)
                 for i, o in reqs:
                     yield mk("P3r", specs, tree, [{"in": i, "out": o}])
+                if len(ins) > 1 and (thorough or tree[0] == "chain"):
+                    for u in ins:  # only the disciplines depending on u are re-executed with new inputs
+                        yield mk("P3r", specs, tree, [{"all": True}, {"all": True, "pt": {"move": u}}])
                 if thorough:
                     for i, o in reqs[:-1]:
                         yield mk("P3r", specs, tree, [{"in": i, "out": o}, {"all": True, "pt": 1}])
@@ -732,11 +750,11 @@ def run(ctx):
         + ("every (inputs subset, outputs subset) request" if th else "every singleton request and the full request")
         + "; two-request histories on the same process for MDOChain/MDAChain/chain[chain,D]"
         + (" and (reduced) every other kind" if th else "")
-        + ": subset->all (same" + ("/moved" if th else "") + " point), all->subset (" + ("same/" if th else "") + "moved point), "
-        + ("subset->full, " if th else "") + "every ordered pair of singleton requests" + (" (disjoint ones also at a moved point)" if th else "")
+        + ": all->all and subset->all after moving one chain input (each in turn), subset->all (same" + ("/moved" if th else "") + " point), all->subset (" + ("same/" if th else "") + "moved point), "
+        + ("subset->full, " if th else "") + "every ordered pair of singleton requests" + (" (disjoint ones also at a moved point)" if th else " (chain[chain,D]: disjoint pairs only)")
         + ("; representatives with 3-4 names on a side: singleton and full requests" if th else ""),
-        "P3": "three disciplines, <= 2 reads, " + ("<= 2 writes: every composition (10^6, every sort order) as MDOChain; single-write representatives as every other kind incl. 6 nestings" if th else "1 write: representatives x every kind incl. 6 nestings") + ", all Jacobians",
-        "P3r": "three single-write disciplines (representatives) as MDOChain/MDAChain" + ("/chain[chain,D]/chain[D,par]" if th else "") + ": singleton and full requests" + (", singleton request then all Jacobians at a moved point" if th else ""),
+        "P3": "three disciplines, <= 2 reads, " + ("<= 2 writes: every composition (10^6, every sort order) as MDOChain; single-write representatives as every other kind incl. 6 nestings" if th else "1 write: representatives x every kind incl. 4 nestings") + ", all Jacobians",
+        "P3r": "three single-write disciplines (representatives) as MDOChain/MDAChain" + ("/chain[chain,D]/chain[D,par]" if th else "") + ": singleton and full requests; all Jacobians, then all Jacobians after moving one chain input (each in turn)" + (", singleton request then all Jacobians at a moved point" if th else ""),
         "P4": "representatives with <= 2 names per side x every kind: " + ("all 8" if th else "5") + " non-dense representation pairs over {dense, csr, JacobianOperator}, "
         + ("all 15" if th else "3") + " other size assignments in {1,2}^4; 5 representation mixes along 3-discipline chains",
         "P5": "JSON grammars (the default) on the representatives with <= 2 names per side x {chain, par, add, mda}",
